@@ -165,3 +165,25 @@ def rand_problem(rng, nmin=3, nmax=12, kmax=4, kinds=None):
     seq = rand_seq(rng, n)
     descs = [rand_hard_constraint(rng, seq, kinds) for _ in range(rng.randint(0, kmax))]
     return seq, descs
+
+
+class shared_tables:
+    """within the block, user_table(Random(seed)) returns one dict object per seed: the situation of a user who loads a
+    codon-usage table once and hands it to several specifications (which annotate it in place)"""
+
+    def __enter__(self):
+        import sys
+        self._mod = sys.modules[__name__]
+        self._orig = self._mod.user_table
+        memo = {}
+
+        def user_table(rng, zero_prob=0.1):
+            key = rng.getstate()
+            if key not in memo:
+                memo[key] = self._orig(rng, zero_prob)
+            return memo[key]
+        self._mod.user_table = user_table
+        return self
+
+    def __exit__(self, *a):
+        self._mod.user_table = self._orig
